@@ -50,7 +50,7 @@ def _case(draw):
             'kl_clip': draw(st.sampled_from([1e-3, 1e30])),
             'N': draw(st.integers(2, 4)), 'style': draw(gens.style_strategy()),
             'mem_format': draw(st.sampled_from(['contiguous', 'contiguous', 'channels_last'])),
-            'accum': draw(st.sampled_from([1, 1, 2, 3])), 'program': ops}
+            'accum': draw(st.sampled_from([1, 1, 2, 3])), 'autocast': draw(st.sampled_from([False, False, False, True])), 'program': ops}
 
 
 def _mid_eval(models, case, seed, pd):
@@ -86,7 +86,12 @@ def _kfac_only_run(case, program, kw, with_mid_eval=True):
             x = kmodel.make_input(case['spec'], case['N'], op['seed'] + 7919 * micro, case['style'], pd)
             if case.get('mem_format') == 'channels_last':
                 x = x.contiguous(memory_format=torch.channels_last) if x.dim() == 4 else x.transpose(-1, -2).contiguous().transpose(-1, -2)
-            (kmodel.loss_of(model(x), op['seed'] + 1 + micro, case['N']) * scale).backward()
+            if case.get('autocast') and case['param_dtype'] == 'float32':
+                with torch.autocast('cpu', dtype=torch.bfloat16):
+                    loss = kmodel.loss_of(model(x), op['seed'] + 1 + micro, case['N']).float()
+            else:
+                loss = kmodel.loss_of(model(x), op['seed'] + 1 + micro, case['N'])
+            (loss * scale).backward()
             if train and with_mid_eval and op.get('eval_mid') is not None and op['eval_mid'] % accum == micro:
                 _mid_eval([model], case, op['seed'], pd)
         if not train:
@@ -110,7 +115,7 @@ class C10(Prop):
     rule = ('Hypothesis draws a runnable model of 1-4 supported layers interleaved with unsupported trainable modules (LayerNorm, BatchNorm2d, '
             'an affine module), contiguous or dense non-contiguous batches (channels_last for 4-d inputs, transposed storage otherwise), residual blocks x + fn(x) around registered Linear/Conv2d layers, wholly or partly frozen layers, 0-2 skip '
             'patterns (names and class names), parameter dtype float32/float64/bfloat16, factor and inverse dtypes, both methods, optional loss '
-            'scale with grad_scaler, accumulation_steps 1-3, and a sequence of eval passes and 1-3 train steps, some with an eval-mode forward + input-gradient pass in the middle of the iteration (between micro-batches or between the last backward and step()). Oracle: around every step() all parameters and buffers '
+            'scale with grad_scaler, forward passes optionally inside torch.autocast(bfloat16), accumulation_steps 1-3, and a sequence of eval passes and 1-3 train steps, some with an eval-mode forward + input-gradient pass in the middle of the iteration (between micro-batches or between the last backward and step()). Oracle: around every step() all parameters and buffers '
             'bit-identical, gradients of parameters outside the registered layers bit-identical (None stays None), registered gradients keep '
             'shape, dtype, device, contiguity and are finite; around eval-mode forward/backward passes state_dict(), memory_usage() and steps '
             'unchanged, and the same history without the eval passes gives bit-identical post-step gradients and final factors; outputs and autograd gradients bit-identical to a twin model without K-FAC (fed its own copy of the batch) in every pass, the batch itself left unmodified and no pass failing only with K-FAC registered. Non-trivial: >= 1 registered '
@@ -119,8 +124,8 @@ class C10(Prop):
                    'bit-identity with the twin relies on deterministic CPU kernels (torch.use_deterministic_algorithms is not required for these ops)']
     examples = {'quick': 400, 'thorough': 1200}
     shards = {'quick': 4, 'thorough': 16}
-    required_labels = {'quick': ['nontrivial=True', 'param_dtype=bfloat16', 'param_dtype=float64', 'residual=True', 'frozen=True', 'skipped=True', 'mem_format=channels_last', 'factor_dtype_is_param_dtype=True', 'mid_iteration_eval=True'],
-                       'thorough': ['nontrivial=True', 'param_dtype=bfloat16', 'param_dtype=float64', 'residual=True', 'frozen=True', 'skipped=True', 'mem_format=channels_last', 'factor_dtype_is_param_dtype=True', 'mid_iteration_eval=True']}
+    required_labels = {'quick': ['nontrivial=True', 'param_dtype=bfloat16', 'param_dtype=float64', 'residual=True', 'frozen=True', 'skipped=True', 'mem_format=channels_last', 'factor_dtype_is_param_dtype=True', 'mid_iteration_eval=True', 'autocast=True'],
+                       'thorough': ['nontrivial=True', 'param_dtype=bfloat16', 'param_dtype=float64', 'residual=True', 'frozen=True', 'skipped=True', 'mem_format=channels_last', 'factor_dtype_is_param_dtype=True', 'mid_iteration_eval=True', 'autocast=True']}
 
     def strategy(self, tier):
         return _case()
@@ -177,6 +182,11 @@ class C10(Prop):
         accum = case.get('accum', 1)
         unreg_trainable = any(p.requires_grad for n, p in model.named_parameters() if n not in reg_params)
         saw_eval = saw_mid_eval = False
+        import contextlib
+        # mixed precision as documented: forward passes inside torch.autocast (float32 parameters only)
+        use_amp = bool(case.get('autocast')) and case['param_dtype'] == 'float32'
+        amp = (lambda: torch.autocast('cpu', dtype=torch.bfloat16)) if use_amp else contextlib.nullcontext
+        labels['autocast'] = use_amp
         for i, op in enumerate(case['program']):
             train = op['op'] == 'train'
             saw_eval |= not train
@@ -194,11 +204,15 @@ class C10(Prop):
                   x = x.contiguous(memory_format=torch.channels_last) if x.dim() == 4 else x.transpose(-1, -2).contiguous().transpose(-1, -2)
               # the twin gets its own copy of the batch: a hook that writes into its input must not reach the twin through aliasing
               x2, x_orig = x.clone(memory_format=torch.preserve_format), x.clone(memory_format=torch.preserve_format)
-              y2 = twin(x2)
-              (kmodel.loss_of(y2, op['seed'] + 1 + micro, case['N']) * scale).backward()
+              with amp():
+                  y2 = twin(x2)
+                  l2 = kmodel.loss_of(y2, op['seed'] + 1 + micro, case['N']).float()
+              (l2 * scale).backward()
               try:
-                  y = model(x)
-                  (kmodel.loss_of(y, op['seed'] + 1 + micro, case['N']) * scale).backward()
+                  with amp():
+                      y = model(x)
+                      l1 = kmodel.loss_of(y, op['seed'] + 1 + micro, case['N']).float()
+                  (l1 * scale).backward()
               except RuntimeError as e:
                   # the same pass succeeded on the twin without K-FAC
                   return violation(f'op {i} {op}: forward/backward raised with K-FAC registered but not on the twin without it: '
